@@ -49,6 +49,7 @@ pub struct Cfg {
     pub threads: bool,
     pub late_power_levels: bool,
     pub big_events: bool,
+    pub many_admins: bool,
     pub w: Weights,
 }
 
